@@ -6,14 +6,23 @@
     result is stored in the slot of the i-th pair: slot (src,freq) holds the result of its own task (three pairs).
 (c) _multiprocessing.solve: forwards model (interpolated to the task's grid), start field and solver options of ITS task and
     returns (efield, info).
-Not covered: bit-identity of worker processes, the file hand-over (needs C17).
+(d) file-based execution ("fields exchanged through files"), over an abstract scratch directory (ScratchDir) that is either fresh
+    or holds under EVERY name what an earlier simulation with another model may have left there:
+    _multiprocessing.solve given the name of a task file makes the solver call it makes for the task the file holds (start field
+    None stays None), reads its own task file and no other file, returns files that hold field and info of its own solver call,
+    writes no task file, and two task files have disjoint result files;
+    end to end Simulation._data_or_file -> _multiprocessing.solve -> Simulation._load for two tasks of a run (two sources / two
+    frequencies / forward + back-propagation / back-propagation + J v task of one slot), workers finishing in either order: each
+    slot loads field and info of its own task, the solver calls are those of the in-memory run, and every file that is read was
+    written earlier in the same computation (so nothing depends on what the directory held before).
+Not covered: bit-identity of worker processes, the serialisation itself (io.save / io.load round trip of a task; needs C17).
 """
 import os
 
 import z3
 
 from pyvc import cx, ob
-from .cxutil import clause
+from .cxutil import clause, canary, UNRECOGNISED, _Unrecognised
 from .c13 import ds_hook
 from . import c12
 
@@ -177,7 +186,6 @@ def task_slots(which):
         return ok
     clause(col, 'slot_of_a_pair_receives_the_result_of_its_own_task', res, slots, sample=True)
     if which == '_compute':
-        from .cxutil import canary
         canary(col, 'canary/slots_hold_results_in_reversed_order', res,
                lambda r: all(cx.deps_of(r.state['sim'].fields['_dict_efield'][s][f]) == {('RESULT-OF-TASK', 2 - k)} for k, (s, f) in enumerate(SF3)))
     return col.pack()
@@ -232,6 +240,373 @@ def task_solve_wrapper():
     return col.pack()
 
 
+# ----------------------------------------------------------------------------- file-based execution
+SAVE_OPTIONS = ('verb', 'compression', 'json_indent', 'collect_classes')       # keyword arguments of io.save that are not stored
+
+
+class ScratchDir:
+    """Abstract scratch directory (`file_dir`) shared by a simulation and its workers: path -> what io.load returns for it.
+
+    `reused=False`: a fresh directory, only files written during the computation exist.
+    `reused=True` : EVERY path that has not been written during the computation exists already and holds what an earlier
+                    simulation (same survey, same grids, same frequencies -- but another model, other fields, other options)
+                    may have left behind under that name: `leftover(path)`.  This is the most adversarial history of the
+                    directory; nothing in the property allows a result to depend on it.
+    Assumed contracts (listed in the evidence): io.save(p, **kw) stores kw (minus its options) under p; io.load(p) returns
+    what was stored under p last; os.path.isfile / exists tell whether p is stored; they touch no other file."""
+
+    def __init__(self, reused, leftover):
+        self.reused, self.leftover = reused, leftover
+        self.files = {}
+        self.written = []            # paths in the order they are written during the computation
+        self.log = []                # ('read' | 'write' | 'probe', path, was written before in this computation?)
+
+    def _path(self, p):
+        if not isinstance(p, str):
+            raise cx.Unsupported(f'file name is not a concrete string: {p!r}')
+        return p
+
+    def exists(self, p):
+        return p in self.files or self.reused
+
+    def put(self, p, **content):
+        """a file written by the computation under contract itself (e.g. the task file by the simulation)"""
+        self.files[p] = dict(content)
+        self.written.append(p)
+
+    def load(self, it, args, kw, node):
+        p = self._path(args[0] if args else kw.get('fname'))
+        self.log.append(('read', p, p in self.written))
+        if p not in self.files:
+            if not self.reused:
+                raise cx._Raise(cx.ExcVal('FileNotFoundError', (p,)))
+            self.files[p] = self.leftover(p)
+        return {k: (dict(v) if isinstance(v, dict) else v) for k, v in self.files[p].items()}      # every load builds new containers
+
+    def save(self, it, args, kw, node):
+        p = self._path(args[0] if args else kw.get('fname'))
+        self.log.append(('write', p, p in self.written))
+        self.files[p] = {k: v for k, v in kw.items() if k not in SAVE_OPTIONS and k != 'fname'}
+        self.written.append(p)
+        return None
+
+    def probe(self, it, f, args, kw, node):
+        p = self._path(args[0])
+        self.log.append(('probe', p, p in self.written))
+        return self.exists(p)
+
+    @staticmethod
+    def join(it, f, args, kw, node):
+        import posixpath
+        if not all(isinstance(a, str) for a in args):
+            raise cx.Unsupported('os.path.join of a non-literal path component')
+        return posixpath.join(*args)
+
+    @staticmethod
+    def pure(it, f, args, kw, node):
+        # os.path.splitext / basename / dirname / split: functions of the path text
+        import posixpath
+        if not all(isinstance(a, str) for a in args) or kw:
+            raise cx.Unsupported(f'{f.name} of a non-literal path')
+        return getattr(posixpath, f.name.rsplit('.', 1)[1])(*args)
+
+    def install(self, ctx, col=None):
+        ctx.summaries.update({'io.load': self.load, 'io.save': self.save})
+        pl = ctx.opts.setdefault('prelude', {})
+        pl.update({'os.path.isfile': self.probe, 'os.path.exists': self.probe, 'os.path.join': self.join})
+        pl.update({f'os.path.{n}': self.pure for n in ('splitext', 'basename', 'dirname', 'split')})
+
+    def reads(self):
+        return [e for e in self.log if e[0] == 'read']
+
+    def writes(self):
+        return [e for e in self.log if e[0] == 'write']
+
+
+FS_TRUST = ('emg3d.io.save(p, **kw) / io.load(p) / os.path.isfile / exists / join / splitext / basename / dirname: a file holds what was saved under its name last, '
+            'load returns it, the calls touch no other file (abstract scratch directory; the h5/npz/json round trip itself is not covered)')
+
+
+def mk_task(kind, start, tag=''):
+    """the input of one worker task as Simulation.{_compute, _bcompute, jvec} build it, and what an earlier simulation may have left"""
+    grid = cx.Obj('TensorMesh', {'__id__': 'grid-of-the-task' + tag})
+    freq = z3.Real('f')
+    task = dict(model=cx.Obj('Model', {'__id__': 'model-of-the-task' + tag}, mod='models'),
+                efield=None if start == 'none' else cx.Obj('Field', {'__id__': 'start-field-of-the-task' + tag, 'grid': grid, '_frequency': freq, 'frequency': freq}),
+                solver_opts={'tol': z3.Real('tol' + tag), 'verb': 1})
+    if kind == 'source':
+        task.update(grid=grid, source=cx.Obj('Tx', {'__id__': 'source-of-the-task' + tag}), frequency=freq)
+    else:
+        task.update(sfield=cx.Obj('Field', {'__id__': 'source-field-of-the-task' + tag, 'grid': grid, '_frequency': freq, 'frequency': freq}))
+
+    def leftover(path):
+        # same grid (the very same object: equal in every respect), same frequency -- everything else from another model
+        old = cx.Obj('Field', {'__id__': 'field-left-by-an-earlier-run', 'grid': grid, '_frequency': freq, 'frequency': freq})
+        old_task = dict(model=cx.Obj('Model', {'__id__': 'model-of-an-earlier-run'}, mod='models'), efield=old,
+                        solver_opts={'tol': z3.Real('tol_of_an_earlier_run'), 'verb': 1})
+        if kind == 'source':
+            old_task.update(grid=grid, source=cx.Obj('Tx', {'__id__': 'source-of-an-earlier-run'}), frequency=freq)
+        else:
+            old_task.update(sfield=cx.Obj('Field', {'__id__': 'source-field-of-an-earlier-run', 'grid': grid, '_frequency': freq, 'frequency': freq}))
+        return {'data': old_task, 'efield': old, 'info': {'exit': 0, '__id__': 'info-left-by-an-earlier-run'},
+                '_date': 'earlier', '_version': 'emg3d', '_format': '1.0'}
+    return task, grid, leftover
+
+
+def solver_summaries(log):
+    """solver.solve / solve_source / Model.interpolate_to_grid as uninterpreted functions of their arguments (each call is logged
+    and returns a result that names the call)"""
+    def fct(name):
+        def f(it, args, kw, node):
+            k = len(log)
+            log.append((name, list(args), dict(kw)))
+            return (cx.Obj('Field', {'__id__': 'result', '__call__': k}), {'exit': 0, '__call__': k})
+        return f
+
+    def i2g(it, args, kw, node):
+        return cx.Obj('Model', {'__interpolated_from__': args[0], '__grid__': args[1] if len(args) > 1 else kw.get('grid')})
+    return {'solver.solve': fct('solve'), 'solver.solve_source': fct('solve_source'), 'models.Model.interpolate_to_grid': i2g}
+
+
+def same_value(a, b):
+    """two abstract values denote the same thing: identical objects / equal constants / equal terms / models interpolated from the
+    same model to the same grid / containers of such"""
+    if a is b:
+        return True
+    if cx.is_sym(a) and cx.is_sym(b):
+        return a.eq(b)
+    if isinstance(a, cx.Obj) and isinstance(b, cx.Obj):
+        if '__interpolated_from__' in a.fields and '__interpolated_from__' in b.fields:
+            return a.fields['__interpolated_from__'] is b.fields['__interpolated_from__'] and a.fields.get('__grid__') is b.fields.get('__grid__')
+        return False
+    if isinstance(a, dict) and isinstance(b, dict):
+        return set(a) == set(b) and all(same_value(a[k], b[k]) for k in a)
+    if isinstance(a, (list, tuple)) and isinstance(b, (list, tuple)):
+        return len(a) == len(b) and all(same_value(x, y) for x, y in zip(a, b))
+    if isinstance(a, (cx.Obj, cx.Opaque, cx.NDArr)) or isinstance(b, (cx.Obj, cx.Opaque, cx.NDArr)) or cx.is_sym(a) or cx.is_sym(b):
+        return False
+    return type(a) is type(b) and a == b
+
+
+def same_solver_call(c1, c2):
+    return c1[0] == c2[0] and same_value(c1[1], c2[1]) and same_value(c1[2], c2[2])
+
+
+TASK_FILES = ('/scratch/run.v1/efield_TxED-1_f-1.h5', '/scratch/run.v1/efield_TxED-2_f-1.h5')      # a dot in the directory name is legitimate
+
+
+def task_solve_wrapper_files():
+    """_multiprocessing.solve with the NAME OF A TASK FILE instead of the task: for both kinds of task (source / source field), with
+    and without a start field, in a fresh and in a re-used scratch directory, for two task files of the same run:
+    the worker is first run on the task itself (in memory), then on the file that holds this task."""
+    col = ob.Collector(PROP, '_multiprocessing.solve/files')
+    col.default_replay = replay
+    col.function('_multiprocessing.solve')
+    col.trust(FS_TRUST)
+    res = []
+    for kind in ('source', 'sfield'):
+        for start in ('none', 'field'):
+            for reused in (False, True):
+                for tf in TASK_FILES:
+                    def run(ctx, kind=kind, start=start, reused=reused, tf=tf):
+                        log = []
+                        ctx.summaries.update(solver_summaries(log))
+                        task, grid, leftover = mk_task(kind, start)
+                        fs = ScratchDir(reused, leftover)
+                        fs.install(ctx)
+                        it = cx.Interp(ctx, '_multiprocessing')
+                        fn = ('repo', '_multiprocessing', 'solve')
+                        st = dict(kind=kind, start=start, reused=reused, tf=tf, task=dict(task), fs=fs, log=log, others=[t for t in TASK_FILES if t != tf])
+                        try:
+                            st['mem_value'] = it.call(fn, [dict(task, solver_opts=dict(task['solver_opts']))], {})
+                            st['n_mem'] = len(log)
+                            st['fs_log_mem'] = list(fs.log)
+                            fs.put(tf, data=dict(task, solver_opts=dict(task['solver_opts'])), _date='now', _version='emg3d', _format='1.0')
+                            v = it.call(fn, [tf], {})
+                        except cx._Raise as e:
+                            return 'raise', e.exc, st
+                        return 'return', v, st
+                    res += cx.explore(run)
+
+    clause(col, 'returns_normally', res, lambda r: r.outcome == 'return')
+    clause(col, 'task_given_in_memory_touches_no_file', res, lambda r: r.outcome != 'return' or r.state['fs_log_mem'] == [])
+
+    def calls(r):
+        n = r.state.get('n_mem')
+        if r.outcome != 'return':
+            return None
+        log = r.state['log']
+        if n != 1 or len(log) != 2:
+            return UNRECOGNISED(f'{n} solver call(s) for the task in memory, {len(log) - (n or 0)} for the task file (the contract talks about one call per task)')
+        return log[0], log[1]
+
+    def same_call(r):
+        c = calls(r)
+        if c is None or isinstance(c, _Unrecognised):
+            return c
+        return same_solver_call(*c)
+    clause(col, 'solver_call_for_a_task_file_is_the_solver_call_for_the_task_it_holds', res, same_call, sample=True)
+
+    def start_field(r):
+        c = calls(r)
+        if c is None or isinstance(c, _Unrecognised):
+            return c
+        kw = c[1][2]
+        return 'efield' in kw and kw['efield'] is r.state['task']['efield']
+    clause(col, 'start_field_is_the_one_of_the_task_file_none_if_it_holds_none', res, start_field)
+
+    def reads(r):
+        if r.outcome != 'return':
+            return None
+        rd = [e[1] for e in r.state['fs'].reads()]
+        return len(rd) >= 1 and all(p == r.state['tf'] for p in rd)
+    clause(col, 'reads_its_own_task_file_and_no_other_file', res, reads, sample=True)
+
+    def stored(r):
+        if r.outcome != 'return':
+            return None
+        v, fs = r.value, r.state['fs']
+        c = calls(r)
+        if isinstance(c, _Unrecognised):
+            return c
+        if not (isinstance(v, tuple) and len(v) == 2 and all(isinstance(p, str) for p in v)):
+            return UNRECOGNISED('in file-based mode the worker does not return two file names (field, info)')
+        k = 1                                             # index of the solver call made for the task file
+        fld = fs.files.get(v[0], {}).get('efield') if v[0] in fs.written else None
+        inf = fs.files.get(v[1], {}).get('info') if v[1] in fs.written else None
+        return isinstance(fld, cx.Obj) and fld.fields.get('__call__') == k and isinstance(inf, dict) and inf.get('__call__') == k
+    clause(col, 'returned_files_hold_field_and_info_of_its_own_solver_call', res, stored, sample=True)
+
+    def frame(r):
+        if r.outcome != 'return':
+            return None
+        wr = [e[1] for e in r.state['fs'].writes()]
+        return r.state['tf'] not in wr and not any(w in r.state['others'] for w in wr)
+    clause(col, 'writes_no_task_file', res, frame)
+
+    def disjoint(r):
+        # the files written for one task file are not the files written for the other one (same kind / start / directory state)
+        if r.outcome != 'return':
+            return None
+        mine = {e[1] for e in r.state['fs'].writes()}
+        for q in res:
+            if q.outcome == 'return' and all(q.state[k] == r.state[k] for k in ('kind', 'start', 'reused')) and q.state['tf'] != r.state['tf']:
+                if mine & {e[1] for e in q.state['fs'].writes()}:
+                    return False
+        return True
+    clause(col, 'two_task_files_of_a_run_have_disjoint_result_files', res, disjoint)
+    col.lia('all_configurations_explored', [], z3.BoolVal({(r.state['kind'], r.state['start'], r.state['reused'], r.state['tf']) for r in res}
+                                                            == {(k, s, u, t) for k in ('source', 'sfield') for s in ('none', 'field') for u in (False, True) for t in TASK_FILES}))
+    canary(col, 'canary/start_field_is_what_an_earlier_run_left_in_the_directory', res,
+           lambda r: r.outcome == 'return' and len(r.state['log']) == 2 and isinstance(r.state['log'][1][2].get('efield'), cx.Obj)
+           and r.state['log'][1][2]['efield'].fields.get('__id__') == 'field-left-by-an-earlier-run')
+    canary(col, 'canary/reads_no_file_at_all', res, lambda r: r.outcome == 'return' and not r.state['fs'].reads())
+    return col.pack()
+
+SLOT_PAIRS = [(('efield', 'TxED-1', 'f-1', 'source'), ('efield', 'TxED-2', 'f-1', 'source')),        # two sources
+              (('efield', 'TxED-1', 'f-1', 'source'), ('efield', 'TxED-1', 'f-2', 'source')),        # two frequencies
+              (('efield', 'TxED-1', 'f-1', 'source'), ('bfield', 'TxED-1', 'f-1', 'sfield')),        # forward and back-propagation task of one slot
+              (('bfield', 'TxED-1', 'f-1', 'sfield'), ('gfield', 'TxED-1', 'f-1', 'sfield'))]        # back-propagation and J v task of one slot
+
+
+def task_file_hand_over():
+    """The hand-over of two tasks of a simulation through its scratch directory, end to end over the real
+    Simulation._data_or_file -> _multiprocessing.solve -> Simulation._load: both tasks are handed over first (as _compute / _bcompute /
+    jvec do), the workers then finish in either order, the simulation loads what they returned.  Compared with the workers run on
+    the tasks themselves.  Directory fresh or re-used (see ScratchDir)."""
+    col = ob.Collector(PROP, 'file_hand_over')
+    col.default_replay = replay
+    for q in ('simulations.Simulation._data_or_file', 'simulations.Simulation._load', '_multiprocessing.solve'):
+        col.function(q)
+    col.trust(FS_TRUST)
+    res = []
+    for pair in SLOT_PAIRS:
+        for start in ('none', 'field'):
+            for reused in (False, True):
+                for order in ((0, 1), (1, 0)):
+                    for file_dir in ('/scratch/run.v1', None):
+                        if file_dir is None and (reused or order == (1, 0)):
+                            continue
+
+                        def run(ctx, pair=pair, start=start, reused=reused, order=order, file_dir=file_dir):
+                            log = []
+                            ctx.summaries.update(solver_summaries(log))
+                            tasks = [mk_task(sl[3], start, tag=f' {k}') for k, sl in enumerate(pair)]
+                            fs = ScratchDir(reused, tasks[0][2])
+                            fs.install(ctx)
+                            sim = cx.Obj('Simulation', {'file_dir': file_dir}, mod='simulations')
+                            its = cx.Interp(ctx, 'simulations')
+                            itm = cx.Interp(ctx, '_multiprocessing')
+                            solve = ('repo', '_multiprocessing', 'solve')
+                            st = dict(pair=pair, start=start, reused=reused, order=order, file_dir=file_dir, fs=fs, log=log, tasks=[t[0] for t in tasks])
+
+                            def copy(t):
+                                return dict(t, solver_opts=dict(t['solver_opts']))
+                            try:
+                                st['mem'] = [itm.call(solve, [copy(t[0])], {}) for t in tasks]
+                                st['n_mem'] = len(log)
+                                st['fs_log_mem'] = list(fs.log)
+                                st['given'] = [copy(t[0]) for t in tasks]
+                                handed = [its.call(its.getattr(sim, '_data_or_file'), [sl[0], sl[1], sl[2], d], {}) for sl, d in zip(pair, st['given'])]
+                                st['handed'] = handed
+                                out = [None, None]
+                                for k in order:
+                                    out[k] = itm.call(solve, [handed[k]], {})
+                                st['out'] = out
+                                st['loaded'] = [(its.call(its.getattr(sim, '_load'), [o[0], 'efield'], {}), its.call(its.getattr(sim, '_load'), [o[1], 'info'], {}))
+                                                for o in out]
+                            except cx._Raise as e:
+                                return 'raise', e.exc, st
+                            return 'return', None, st
+                        res += cx.explore(run)
+
+    clause(col, 'returns_normally', res, lambda r: r.outcome == 'return')
+    mem = [r for r in res if r.state['file_dir'] is None]
+    fil = [r for r in res if r.state['file_dir'] is not None]
+
+    def call_of(r, k, lo, hi):
+        """index of THE solver call (among calls lo..hi-1) whose model was interpolated from the model of task k"""
+        m = r.state['tasks'][k]['model']
+        ix = [j for j in range(lo, hi) if isinstance(r.state['log'][j][2].get('model'), cx.Obj)
+              and r.state['log'][j][2]['model'].fields.get('__interpolated_from__') is m]
+        return ix
+
+    def per_task(r, what):
+        if r.outcome != 'return':
+            return None
+        n, log = r.state['n_mem'], r.state['log']
+        if n != 2 or len(log) != 4:
+            return UNRECOGNISED(f'{n} solver calls for two tasks in memory, {len(log) - n} for the two tasks handed over (the contract talks about one call per task)')
+        ok = True
+        for k in (0, 1):
+            a, b = call_of(r, k, 0, 2), call_of(r, k, 2, 4)
+            if len(a) != 1:
+                return UNRECOGNISED('the solver call for a task given in memory cannot be identified by its model')
+            if what == 'call':
+                ok = ok and len(b) == 1 and same_solver_call(log[a[0]], log[b[0]])
+            else:
+                e, i = r.state['loaded'][k]
+                ok = ok and len(b) == 1 and isinstance(e, cx.Obj) and e.fields.get('__call__') == b[0] and isinstance(i, dict) and i.get('__call__') == b[0]
+        return ok
+    clause(col, 'worker_solves_the_task_handed_over_for_its_slot_as_it_would_in_memory', res, lambda r: per_task(r, 'call'), sample=True)
+    clause(col, 'slot_loads_field_and_info_of_its_own_task_whatever_the_order_of_completion', res, lambda r: per_task(r, 'load'), sample=True)
+    clause(col, 'every_file_read_was_written_earlier_in_the_same_computation', fil,
+           lambda r: None if r.outcome != 'return' else all(e[2] for e in r.state['fs'].reads()), sample=True)
+    clause(col, 'file_based_hand_over_reads_what_it_wrote', fil,
+           lambda r: None if r.outcome != 'return' else len(r.state['fs'].reads()) >= 4)
+    clause(col, 'without_file_dir_tasks_and_results_are_handed_over_as_they_are_and_no_file_is_touched', mem,
+           lambda r: None if r.outcome != 'return' else (r.state['fs'].log == [] and all(h is g for h, g in zip(r.state['handed'], r.state['given']))
+                                                         and all(l[0] is o[0] and l[1] is o[1] for l, o in zip(r.state['loaded'], r.state['out']))))
+    col.lia('all_configurations_explored', [], z3.BoolVal(len({(r.state['pair'], r.state['start'], r.state['reused'], r.state['order'], r.state['file_dir']) for r in res})
+                                                            == len(SLOT_PAIRS) * 2 * (2 * 2 + 1)))
+    canary(col, 'canary/slot_loads_the_result_of_the_other_task', fil,
+           lambda r: r.outcome == 'return' and len(r.state['log']) == 4 and all(
+               isinstance(r.state['loaded'][k][0], cx.Obj) and r.state['loaded'][k][0].fields.get('__call__') in call_of(r, 1 - k, 2, 4) for k in (0, 1)))
+    canary(col, 'canary/some_file_is_read_that_the_computation_did_not_write', fil,
+           lambda r: r.outcome == 'return' and not all(e[2] for e in r.state['fs'].reads()))
+    return col.pack()
+
+
 def task_concrete():
     from . import c11_concrete
     col = ob.Collector(PROP, 'concrete')
@@ -239,7 +614,7 @@ def task_concrete():
     tier = os.environ.get('VERIF_TIER', 'quick')
     r = ob.guarded(c11_concrete.check, tier, seed)
     col.concrete('results_identical_for_worker_counts_with_source_dependent_grids', r['reproduced'] is False, r,
-                 bounded='1 source x 3 frequencies on three different computational grids (gridding=dict: small, large, medium); max_workers 1 vs 3 (quick) / 1..4 + file-based (thorough); fields, responses, misfit, gradient bit-identical',
+                 bounded='1 source x 3 frequencies on three different computational grids (gridding=dict: small, large, medium); max_workers 1 vs 3 and file-based with 2 workers (quick) / 1..4 + file-based 1, 3 (thorough); file-based run in a scratch directory that an earlier simulation with another model has used (1 worker; thorough: 1, 3); fields, responses, misfit, gradient bit-identical to the sequential in-memory run',
                  cases=r.get('cases', 0))
     return col.pack()
 
@@ -247,12 +622,16 @@ def task_concrete():
 def tasks(tier):
     return [('contracts.c11', 'task_process_map', {}), ('contracts.c11', 'task_slots', dict(which='_compute')),
             ('contracts.c11', 'task_slots', dict(which='_bcompute')), ('contracts.c11', 'task_slots', dict(which='jvec')),
-            ('contracts.c11', 'task_solve_wrapper', {}), ('contracts.c11', 'task_concrete', {})]
+            ('contracts.c11', 'task_solve_wrapper', {}), ('contracts.c11', 'task_solve_wrapper_files', {}), ('contracts.c11', 'task_file_hand_over', {}),
+            ('contracts.c11', 'task_concrete', {})]
 
 
 LEVEL = ('Proof over the real source that process_map preserves the input order in all four branches (given the order contracts of the libraries) and that '
          '_compute, _bcompute and jvec build the i-th task from the i-th source-frequency pair and store the i-th result in that pair\'s slot (three pairs), '
-         'and that the worker wrapper forwards exactly its own task.')
+         'and that the worker wrapper forwards exactly its own task -- given in memory or as a task file; in file-based mode the worker reads only its own task file, '
+         'the slot loads the result of its own task for either order of completion, and every file read was written earlier in the same computation '
+         '(fresh or re-used scratch directory).')
 ASSUMPTIONS = ['order contracts of concurrent.futures.Executor.map, tqdm process_map, builtins.map, tqdm(iterable=...)',
                'a worker computes a deterministic function of its task (bit-identity of worker processes is only checked in the bounded concrete run)',
-               'file-based hand-over (io.save / io.load) is not covered (C17 not applicable)']
+               'file-based hand-over: io.load(p) returns what io.save stored under p last (the h5 serialisation round trip of tasks and fields is assumed, C17 not applicable); '
+               'the scratch directory is modelled as fresh or as holding leftovers of an earlier simulation under every name']
